@@ -4,12 +4,12 @@ cd /verif
 declare -A T
 T[cdb87d5]="C01 C03"
 T[e466312]="C01 C03"
-T[44e1881]="C01 C02 C10 C11"
+T[44e1881]="C01 C02"
 T[5fb0cfb]="C01 C03 C08"
 T[2960d6a]="C01 C03 C08"
 T[cdc0b47]="C01 C03 C08"
 T[eb48ccc]="C01 C03"
-T[e20ef42]="C13 C07 C09 C05"
+T[e20ef42]="C13 C07 C09"
 T[2dc1093]="C13"
 T[7d046df]="C11"
 T[de12476]="C12"
@@ -19,6 +19,7 @@ T[cf078e8]="C06"
 T[04ccb58]="C06"
 T[24826b0]="C18"
 T[43b4aa1]="C17"
+T[e75b232]="C09"
 for p in mutants/revert-*.patch; do
   h=$(basename $p | cut -d- -f2)
   echo "== $(basename $p)"
